@@ -143,4 +143,14 @@ Proof.
     + apply cache_ok_eq. cbn [TreeM.pcache TreeM.pnodes TreeM.phigh]. split; [split; [symmetry; apply ref_hash_eqs; exact E|split; [exact D|exact D']]|]. split; [exact C|exact C'].
     + split; [apply all_cached_eq; cbn; repeat split; auto; discriminate|reflexivity].
 Qed.
+Lemma strip_idem : forall p, strip (strip p) = strip p.
+Proof.
+  induction p as [l c ns hp IHns IHhp] using (page_ind' digest V).
+  rewrite (strip_eq (Page l c ns hp)). cbn [TreeM.plvl TreeM.pnodes TreeM.phigh].
+  rewrite strip_eq. cbn [TreeM.plvl TreeM.pnodes TreeM.phigh]. f_equal.
+  - clear IHhp. induction IHns as [|n r Hn Hr IH]; [reflexivity|]. cbn [strip_nodes]. rewrite IH. f_equal.
+    destruct n as [k v lt]. cbn [TreeM.set_lt TreeM.nlt] in *. f_equal.
+    destruct lt as [q|]; cbn [strip_opt PO] in *; [rewrite Hn|]; reflexivity.
+  - destruct hp as [h|]; cbn [strip_opt PO] in *; [rewrite IHhp|]; reflexivity.
+Qed.
 End HashSpec.
